@@ -69,7 +69,13 @@ def case_reset(idx):
 def fresh(rng):
     _counter[0] += 1
     k = _counter[0]
-    c = rng.randrange(4)
+    c = rng.randrange(4) if rng.random() < 0.8 else rng.randrange(4, 7)
+    if c == 4:
+        return {k}                  # objects need not be hashable ...
+    if c == 5:
+        return [k, 'item']
+    if c == 6:
+        return {'key': k}
     if c == 0:
         return f's{k}'
     if c == 1:
@@ -84,6 +90,8 @@ def equal_copy(x):
         return None
     if isinstance(x, tuple):
         return tuple(list(x))
+    if isinstance(x, (set, list, dict)):
+        return type(x)(x)
     if isinstance(x, float):
         return float(repr(x))
     if isinstance(x, int):
